@@ -246,8 +246,9 @@ def _on_alarm(signum, frame):
 def _arm_deadline():
     import signal
     try:
-        signal.signal(signal.SIGALRM, _on_alarm)
-        signal.setitimer(signal.ITIMER_REAL, 10.0 if _timeouts[0] < 3 else 1.0)
+        # CPU time of this process, not wall time: a loaded machine must not turn a slow call into a false alarm
+        signal.signal(signal.SIGVTALRM, _on_alarm)
+        signal.setitimer(signal.ITIMER_VIRTUAL, 10.0 if _timeouts[0] < 3 else 1.0)
     except ValueError:                       # not in the main thread: no watchdog
         pass
 
@@ -255,7 +256,7 @@ def _arm_deadline():
 def _disarm_deadline():
     import signal
     try:
-        signal.setitimer(signal.ITIMER_REAL, 0)
+        signal.setitimer(signal.ITIMER_VIRTUAL, 0)
     except ValueError:
         pass
 
